@@ -8,6 +8,7 @@ func init() {
 			c.Confinement("C04")
 			c.WhoWrites("C04")
 			c.LockerInternals("C04")
+			c.OneInstance("C04", "locker", "ruler") // every request path goes through the one locker
 			c.RulerKeyAgreement("C04")
 			c.SignerRefusalReasons("C04")
 			c.SigningRootProvenance("C04")
@@ -26,6 +27,7 @@ func init() {
 		Run: func(c *Ctx) {
 			c.GateTypestate("C15")
 			c.LockerInternals("C15")
+			c.OneInstance("C15", "locker", "ruler")
 			c.NoNestedAcquisition("C15")
 			c.LockReleased("C15") // a lock kept beyond its function also leaves requests waiting forever
 			c.NoRecursiveLock("C15")
